@@ -21,6 +21,7 @@ class GenT:
         self.units = set(snapshot["units"])
         self.dims = set(snapshot["dims"])
         self.prefixes = set(snapshot["prefixes"])
+        self.params = params or {}
 
     def big(self):
         return self.rng.choice([5, 6, 7, 8, 9, -5, -6, -7, -9, 11])
@@ -115,8 +116,9 @@ class GenT:
 
     def generate(self):
         r = self.rng
-        nthreads = r.choice([2, 2, 2, 3])
-        nexpr = r.choice([1, 1, 2, 3, 4])
+        deep = bool(self.params.get("long"))
+        nthreads = r.choice([2, 2, 2, 3] if not deep else [2, 3, 3, 4])
+        nexpr = r.choice([1, 1, 2, 3, 4] if not deep else [2, 3, 4, 6])
         kinds = r.choice([["dim"], ["prefix"], ["unit"], ["unit", "dim"], ["dim", "prefix", "unit", "log"],
                           ["unit", "prefix"], ["log"], ["unit"]])
         threads = [[] for _ in range(nthreads)]
@@ -133,7 +135,7 @@ class GenT:
                 r.shuffle(t)
         strategy = r.choice(["uniform", "pct", "pct", "sticky"])
         opcode_in = []
-        if r.random() < 0.25:
+        if r.random() < (0.25 if not deep else 0.5):
             opcode_in = r.choice([
                 ["Dimension.__new__", "Prefix.__new__", "Unit.__new__"],
                 ["Unit.__new__"], ["Dimension.__new__"], ["Prefix.__new__"],
